@@ -17,7 +17,7 @@ class PreludeMixin:
                 'float', 'bool', 'isinstance', 'all', 'any', 'zip', 'enumerate', 'reversed', 'sum', 'abs',
                 'getattr', 'pow', 'iter', 'next', 'type', 'repr', 'print', 'frozenset', 'hasattr'}
     SPEC_BUILTINS = {'vec_le', 'vec_ge', 'vec_lt', 'vec_eq', 'vec_zero', 'dom', 'is_none', 'to_real', 'length',
-                     'keys_subset', 'str_to_int', 'alive', 'in_prefix', 'name_of', 'str_of', 'clock_now', 'fs_kind', 'fs_target', 'path', 'dict_put', 'dict_del', 'set_put', 'set_del', 'counter_inc', 'is_digits', 'select', 'strlen', 'cls_is', 'distinct_list'}
+                     'keys_subset', 'str_to_int', 'alive', 'in_prefix', 'name_of', 'str_of', 'clock_now', 'eps', 'rdiv', 'fs_kind', 'fs_target', 'path', 'dict_put', 'dict_del', 'set_put', 'set_del', 'counter_inc', 'is_digits', 'select', 'strlen', 'cls_is', 'distinct_list'}
     LIB_CONSTS = {'errno.ENOENT': 2, 'errno.EEXIST': 17, 'errno.EINVAL': 22, 'sys.maxsize': 9223372036854775807, 'np.inf': INF, 'numpy.inf': INF, 'math.inf': INF}
     LIB_MODULES_ALIAS = {}
     LIB_MODULES = {'six.moves', 'os.path', 'six.moves.urllib', 'np.random'}
@@ -976,7 +976,44 @@ class PreludeMixin:
         return cur
 
     def b_np_finfo(self, st, fr, args, kw):
+        st.assume(EPS > 0)          # machine epsilon: some positive real (its value is never used)
         return LocalDictObj({'eps': SR(EPS)})
+
+    def b_sorted(self, st, fr, args, kw):
+        """sorted(iterable, key=f): a permutation of the input, non-decreasing in f (stable order not modelled)."""
+        src = self.materialize(st, fr, args[0])
+        keyf = kw.get('key')
+        n = src.t[0]
+        res = fresh_val(src.kind, 'sorted')
+        perm = z3.Function(fresh_name('perm'), I, I)
+        inv = z3.Function(fresh_name('inv'), I, I)
+        j = z3.Int(fresh_name('sj'))
+        st.assume(res.t[0] == n)
+        st.assume(z3.ForAll([j], z3.Implies(z3.And(j >= 0, j < n),
+                                            z3.And(perm(j) >= 0, perm(j) < n, inv(perm(j)) == j,
+                                                   *[z3.Select(ra, j) == z3.Select(sa, perm(j))
+                                                     for ra, sa in zip(res.t[1:], src.t[1:])])),
+                            patterns=[z3.Select(res.t[1], j)]))
+        st.assume(z3.ForAll([j], z3.Implies(z3.And(j >= 0, j < n),
+                                            z3.And(inv(j) >= 0, inv(j) < n, perm(inv(j)) == j,
+                                                   *[z3.Select(ra, inv(j)) == z3.Select(sa, j)
+                                                     for ra, sa in zip(res.t[1:], src.t[1:])])),
+                            patterns=[inv(j), z3.Select(src.t[1], j)]))
+        self.sorted_info[res.t[1].get_id()] = (perm, inv, src)
+        if keyf is not None:
+            a, b_ = z3.Int(fresh_name('sa')), z3.Int(fresh_name('sb'))
+            sf = self.Frame(fr.module, fr.qual, fr.cls, spec=True)
+            sf.closure = dict(fr.closure)
+            sf.closure.update(st.env)
+            bnd = self.push_binder([a, b_])
+            try:
+                ka = self.call_value(st, sf, keyf, [ops.list_get(res, a)], {})[0][1]
+                kb = self.call_value(st, sf, keyf, [ops.list_get(res, b_)], {})[0][1]
+                le = ops.asz(ops.compare('<=', ka, kb))
+            finally:
+                self.close_binder(st, bnd, z3.And(a >= 0, a < n, b_ >= 0, b_ < n))
+            st.assume(z3.ForAll([a, b_], z3.Implies(z3.And(a >= 0, a < b_, b_ < n), le)))
+        return res
 
     # operator module (used through _any/_all)
     def b_operator_eq(self, st, fr, args, kw):
@@ -1035,6 +1072,11 @@ class PreludeMixin:
             return ops.counter_add(args[0], args[1], lift(args[2], KInt).z)
         if name in ('fs_kind', 'fs_target', 'path'):
             return self.fs_spec(st, name, args)
+        if name == 'rdiv':
+            return SR(ops.real_div(ops.coerce(lift(args[0]), KReal).z, ops.coerce(lift(args[1]), KReal).z))
+        if name == 'eps':
+            st.assume(EPS > 0)
+            return SR(EPS)
         if name == 'clock_now':
             return SR(z3.Select(self.H.get(st.heap, ('$clock', 0), R), 0))
         if name == 'in_prefix':
